@@ -307,10 +307,15 @@ def checkAcc (d : DS) (s : St) (o : Obs) (t : Toks) (mi : Option (Bytes × Bool)
 
 /-! ### builder calls / ops -/
 
-def applyCalls (calls : String) : Builder :=
+def applyCalls (d : DS) (keys : Array Bytes) (calls : String) : Builder :=
   if calls == "-" then {} else
   (calls.splitOn ";").foldl (fun b c =>
     match c.splitOn ":" with
+    | ["build", i, _] =>
+      -- an earlier `build` on the same builder (its result is dropped): id and key stay behind
+      (match keys[i.toNat?.getD 0]? with
+       | some pk => Builder.afterBuild d.S b (d.ofB pk)
+       | none => b)
     | ["seq", n] => b.setSeq (n.toNat?.getD 0)
     | ["raw", k, v] => b.addRaw (unhex k) (unhex v)
     | ["bytes", k, v] => b.addValue (unhex k) (.bytes (unhex v))
@@ -435,7 +440,8 @@ def handleDec (d : DS) (s : St) (t : Toks) (o : Toks) (rec : Option Obs) (isInit
     if expect == "accept" && resClass res != "ok" then
       s.prop "C02" "wellformed_accepted" s!"tag={tag} res={res} buf={hex buf}"
     else if expect == "reject" && resClass res == "ok" then
-      if tag.startsWith "t-" || tag.startsWith "s-t-" then s.prop "C01" "tamper_rejected" s!"tag={tag} buf={hex buf}"
+      if tag.startsWith "t-" || tag.startsWith "s-t-" then
+        (s.prop "C01" "tamper_rejected" s!"tag={tag} buf={hex buf}").prop "C02" "input_without_a_valid_signature_rejected" s!"tag={tag} buf={hex buf}"
       else s.prop "C02" "malformed_rejected" s!"tag={tag} buf={hex buf}"
     else s.chk
   match m, rec with
@@ -584,7 +590,7 @@ def handleBuild (d : DS) (s : St) (t : Toks) (o : Toks) (rec : Option Obs) : St 
   | none => s
   | some pkb =>
     let pk := d.ofB pkb
-    let b := applyCalls (tget t "calls")
+    let b := applyCalls d s.keys (tget t "calls")
     let log := parseSignlog (tget o "signlog")
     let res := tget o "res"
     let s := if res == "panic" then s.prop "C03" "build_no_panic" "" else s
@@ -614,9 +620,22 @@ def handleBuild (d : DS) (s : St) (t : Toks) (o : Toks) (rec : Option Obs) : St 
       | .error _ => mres
     let s := s.cov s!"build/{d.name}/{resKind res}/{(b.content.length)}"
     let s := s.cmp "build.res" (resKind mres) (resKind res)
-    let s := if resKind res == "ExceedsMaxSize" || resKind mres == "ExceedsMaxSize" then
-        (if resKind res == resKind mres then s else s.prop "C09" "builder_refusal_matches_size_rule" s!"model={mres} impl={res}")
-      else s
+    -- C09: "the builder refuses every result above 300 bytes and may additionally refuse results
+    -- within 8 bytes of the limit, but nothing smaller" (a builder more exact than the model's is
+    -- not a violation; an exact disagreement is only a broken tie, `build.res`)
+    let wouldBe : Option Nat := match prep, oracle with
+      | .ok b', some sg => some (({ seq := b'.seq, nodeId := [], content := b'.content, sig := sg } : Record).size)
+      | _, _ => none
+    let s := match wouldBe with
+      | some sz =>
+        if resClass res == "ok" && sz > 300 then s.prop "C09" "builder_refuses_above_300" s!"size={sz}"
+        else if resKind res == "ExceedsMaxSize" && sz + 8 ≤ 300 then
+          s.prop "C09" "builder_refuses_only_near_the_limit" s!"size={sz}"
+        else s.chk
+      | none =>
+        if resKind res == "ExceedsMaxSize" && resKind mres != "ExceedsMaxSize" && mres != "reaches-signer" then
+          s.prop "C09" "builder_refusal_has_a_size_cause" s!"model={mres} impl={res}"
+        else s
     match mrec, rec with
     | some r, some ob =>
       let s := cmpRec s "build" r ob
@@ -731,7 +750,9 @@ def handleStep (d : DS) (s : St) (t : Toks) (o : Toks) (after : Obs) : St :=
           s.prop "C07" "no_wrap_at_max" s!"op={opn}"
         else s
       -- C09: refusal for size exactly when the model's rule says so
-      let s := if resKind res == "ExceedsMaxSize" || resKind mres == "ExceedsMaxSize" then
+      -- (exactness is required of the built-in key types with their 64-byte signatures; for a scheme
+      --  with variable-length signatures only the upper bound, which `checkRecord` enforces)
+      let s := if d.name != "toy" && (resKind res == "ExceedsMaxSize" || resKind mres == "ExceedsMaxSize") then
           (if resKind res == resKind mres then s.chk else s.prop "C09" "refusal_matches_size_rule" s!"op={opn} model={mres} impl={res}")
         else s
       -- C14: what a typed setter stored reads back as the value set
